@@ -130,11 +130,13 @@ class State:
         self.rel = Rel()
         self.defs = {}     # atom -> ('mul',a,b) ...
         self.obj = {}      # atom -> ('inst',cls)|('tuple',[atoms])|('none',)|('str',)|('stream',)
+        self.num = set()   # atoms known to be of type float / int (literals, validated by isinstance, arithmetic of such)
 
     def fork(self):
         s = State()
         s.val = dict(self.val); s.env = dict(self.env); s.fld = dict(self.fld)
         s.rel = self.rel.copy(); s.defs = dict(self.defs); s.obj = dict(self.obj)
+        s.num = set(self.num)
         s.prev_fld = dict(getattr(self, 'prev_fld', {}))
         return s
 
@@ -220,6 +222,8 @@ def join_states(states):
             out.defs[a] = first.defs[a]
         if all(s.obj.get(a) == first.obj.get(a) for s in states) and a in first.obj:
             out.obj[a] = first.obj[a]
+        if all(a in s.num for s in states):
+            out.num.add(a)
 
     def merge(getmap, setmap):
         names = set()
@@ -238,6 +242,8 @@ def join_states(states):
                 for s, a in zip(states, atoms):
                     iv = s.iv(a) if iv is None else I.join(iv, s.iv(a))
                 na = out.new(iv)
+                if all(a in s.num for s, a in zip(states, atoms)):
+                    out.num.add(na)
                 objs_ = [s.obj.get(a) for s, a in zip(states, atoms)]
                 jo = join_obj(objs_)
                 if jo is None and all(o is not None and o[0] in ('tuple', 'seq') for o in objs_):
@@ -314,6 +320,8 @@ class Flow:
 class Analyser:
     def __init__(self, prog, axioms=None, max_depth=5, cap=64, param_finite=True, record_raises=False):
         self.record_raises = record_raises
+        self.strict_types = False
+        self.reached_raises = set()    # (defining class, function, line) of every explicit raise some abstract state reaches
         self.expr_axioms = {}      # (def_cls, function, expression text) -> Itv : hand-proved local range facts
         self.expr_axioms_used = set()
         self.prog = prog
@@ -352,6 +360,17 @@ class Analyser:
         if m is None:
             return [(st, st.new(FULLTOP))]
         res = m(st, node)
+        if isinstance(node, ast.Constant) and isinstance(node.value, (int, float)):
+            for (s_, a_) in res:
+                s_.num.add(a_)
+        elif isinstance(node, ast.Call):
+            ft_ = ast.unparse(node.func)
+            if ft_ == 'len' or ft_.startswith('math.'):
+                for (s_, a_) in res:
+                    s_.num.add(a_)
+        elif isinstance(node, ast.Attribute) and ast.unparse(node) in MATH_CONST:
+            for (s_, a_) in res:
+                s_.num.add(a_)
         if self.expr_axioms and self.cur and isinstance(node, (ast.BinOp, ast.UnaryOp, ast.Call)):
             key = (self.cur[-1][1], self.cur[-1][2], ast.unparse(node))
             ax = self.expr_axioms.get(key)
@@ -432,6 +451,20 @@ class Analyser:
 
     def ev_Subscript(self, st, node):
         out = []
+        if isinstance(node.slice, ast.Slice) and node.slice.step is None:
+            # t[a:b] of a literal tuple / list with known bounds: the tuple of those elements
+            parts = [node.value] + [x for x in (node.slice.lower, node.slice.upper) if x is not None]
+            for (s, atoms) in self.ev_seq(st, parts):
+                o = s.obj.get(atoms[0])
+                ivs = [s.iv(a) for a in atoms[1:]]
+                if o and o[0] == 'tuple' and all(iv.is_point() for iv in ivs):
+                    k = [int(iv.lo) for iv in ivs]
+                    lo = k[0] if node.slice.lower is not None else None
+                    hi = (k[1] if node.slice.lower is not None else k[0]) if node.slice.upper is not None else None
+                    out.append((s, s.new(FULLTOP, obj=('tuple', tuple(o[1][lo:hi])))))
+                else:
+                    out.append((s, s.new(FULLTOP)))
+            return out
         for (s, (base, idx)) in self.ev_seq(st, [node.value, node.slice]):
             o = s.obj.get(base)
             iv = s.iv(idx)
@@ -454,7 +487,10 @@ class Analyser:
             return out
         for (s, a) in self.ev(st, node.operand):
             if isinstance(node.op, ast.USub):
-                out.append((s, s.new(I.neg(s.iv(a)), d=('neg', a))))
+                na_ = s.new(I.neg(s.iv(a)), d=('neg', a))
+                if a in s.num:
+                    s.num.add(na_)
+                out.append((s, na_))
             elif isinstance(node.op, ast.UAdd):
                 out.append((s, a))
             else:
@@ -575,6 +611,22 @@ class Analyser:
                     if ia.ge0() and ic.ge0() and not ic.nan:
                         m = I.meet(Itv(q.lo, q.hi, q.lo_open, q.hi_open), Itv(0.0, 1.0, False, False))
                         q = Itv(m.lo, m.hi, m.lo_open, m.hi_open, q.nan, q.isint, m.empty)
+                # shifted-quotient lemma: ((E + c)/E - p) / c  with E > 0 a constant, c > 0 and p >= 1 is < 1/E   [ (E+c)/E - p <= c/E ]
+                # (the acceptance-rejection step of the Gamma generator for shape c < 1: its logarithm is then < -1)
+                da = s.defs.get(a)
+                if da and da[0] == 'sub' and ib.gt0() and not ib.nan:
+                    dbb = s.defs.get(da[1])
+                    ip_ = s.iv(da[2])
+                    if dbb and dbb[0] == 'div' and not ip_.nan and ip_.lo >= 1.0:
+                        dn, de = s.defs.get(dbb[1]), s.defs.get(dbb[2])
+                        if dn and dn[0] == 'add' and de and de[0] == 'const' and isinstance(de[1], float) and de[1] > 0:
+                            for (e2, c2) in ((dn[1], dn[2]), (dn[2], dn[1])):
+                                d2 = s.defs.get(e2)
+                                same_c = c2 == b or s.rel.possible(c2, b) == {'='}
+                                if d2 and d2[0] == 'const' and d2[1] == de[1] and same_c:
+                                    strict = ip_.lo > 1.0 or ip_.lo_open
+                                    m = I.meet(Itv(q.lo, q.hi, q.lo_open, q.hi_open), Itv(-I.INF, 1.0 / de[1], False, strict))
+                                    q = Itv(m.lo, m.hi, m.lo_open, m.hi_open, q.nan, q.isint, m.empty)
                 return s.new(q, d=('div', a, b))
             return s.new(Itv(nan=ia.nan or ib.nan))
         if isinstance(op, ast.Pow):
@@ -598,6 +650,8 @@ class Analyser:
             r = self.binop(s, node.op, a, b, node)
             if isinstance(node.op, (ast.Div, ast.FloorDiv, ast.Mod)) and s.iv(r).is_bottom() and not s.iv(a).is_bottom() and not s.iv(b).is_bottom():
                 continue        # the divisor is exactly zero: every execution raises here (recorded as a sink), none continues
+            if a in s.num and b in s.num:
+                s.num.add(r)    # float / int arithmetic yields float / int
             out.append((s, r))
         return out
 
@@ -700,7 +754,12 @@ class Analyser:
         if fn == 'round':
             return self.call_args_then(st, node, lambda s, args, kw: [(s, s.new(Itv(isint=True)))])
         if fn == 'len':
-            return self.call_args_then(st, node, lambda s, args, kw: [(s, s.new(Itv(0.0, I.INF, False, True, isint=True)))])
+            def go_len(s, args, kw):
+                o = s.obj.get(args[0]) if args else None
+                if o and o[0] == 'tuple':
+                    return [(s, s.new(I.const(len(o[1])), d=('const', len(o[1]))))]           # a literal tuple / list: its length is known
+                return [(s, s.new(Itv(0.0, I.INF, False, True, isint=True)))]
+            return self.call_args_then(st, node, go_len)
         if fn == 'isinstance':
             return self.call_args_then(st, node, lambda s, args, kw: [(s, s.new(I.BOOL))])
         if fn == 'range':
@@ -946,10 +1005,17 @@ class Analyser:
                 for (s, (a,)) in self.ev_seq(st, node.args[:1]):
                     o = s.obj.get(a)
                     if o is None:
+                        if a in s.num and {'float', 'int'} <= tnames:
+                            if truth:
+                                out.append(s)           # known to be a float / int
+                        elif self.strict_types:
+                            # type-exact mode (used to decide whether a type refusal can still happen): untyped values go both ways
+                            if truth and {'float', 'int'} <= tnames:
+                                s.num.add(a)
+                            out.append(s)
                         # values of the analysed numeric programs are numbers (assumption, listed in the evidence)
-                        if truth:
-                            if tnames <= {'int'} and False:
-                                pass
+                        elif truth:
+                            s.num.add(a) if {'float', 'int'} <= tnames else None
                             out.append(s)
                     else:
                         if not truth:
@@ -1164,6 +1230,8 @@ class Analyser:
         return Flow(returns=list(self.ev(st, node.value)))
 
     def st_Raise(self, st, node):
+        if self.cur:
+            self.reached_raises.add((self.cur[-1][1], self.cur[-1][2], node.lineno))
         # an explicit range refusal inside a module-level helper (erf_inv, beta) reached from the analysed entry point
         if self.record_raises and self.cur and self.cur[-1][0] == '<module>':
             self.sink(node, 'raise', False, f'explicit `{ast.unparse(node)[:60]}` of {self.cur[-1][2]}() is reachable with these arguments')
@@ -1306,9 +1374,42 @@ class Analyser:
             return self.loop(st, None, node.body, node.orelse, node)
         return self.loop(st, test, node.body, node.orelse, node)
 
+    def _concrete_items(self, s, it):
+        """the atoms a for-loop binds, in order, when the iterable is a range with known bounds or a literal tuple (at most 32)"""
+        o = s.obj.get(it)
+        if o and o[0] == 'tuple' and len(o[1]) <= 32:
+            return list(o[1])
+        if o and o[0] == 'range' and 1 <= len(o[1]) <= 3 and all(s.iv(a).is_point() and float(s.iv(a).lo).is_integer() for a in o[1]):
+            try:
+                r = range(*[int(s.iv(a).lo) for a in o[1]])
+            except ValueError:
+                return None
+            if len(r) <= 32:
+                return [s.new(I.const(k), d=('const', k)) for k in r]
+        return None
+
     def st_For(self, st, node):
         out = Flow()
         for (s, it) in self.ev(st, node.iter):
+            items = self._concrete_items(s, it) if isinstance(node.target, ast.Name) and not node.orelse else None
+            if items is not None:
+                # a loop over a known, short sequence is run item by item
+                states = [s]
+                for a in items:
+                    nxt = []
+                    for x in states:
+                        x.env[node.target.id] = a
+                    f = self.block(states, node.body)
+                    out.returns += f.returns
+                    out.normal += f.breaks
+                    nxt = f.normal + f.conts
+                    if len(nxt) > self.cap:
+                        nxt = [join_states(nxt)]
+                    states = nxt
+                    if not states:
+                        break
+                out.normal += states
+                continue
             if isinstance(node.target, ast.Name):
                 s.env[node.target.id] = s.new(Itv(0.0, I.INF, False, True, isint=True))
             f = self.loop(s, None, node.body, node.orelse, node)
@@ -1369,6 +1470,8 @@ class Analyser:
             a = st.new(iv, obj=obj)
             st.fld[f] = a
             atoms[f] = a
+            if f in inv.get('num', ()):
+                st.num.add(a)
         for (f, op, g) in inv['facts']:
             st.rel.add(atoms[f], op, atoms[g])
         return st
@@ -1413,7 +1516,8 @@ class Analyser:
                         elif p == {'='}: fs.add((f, '==', g))
                         elif p == {'<', '>'}: fs.add((f, '!=', g))
             facts = fs if facts is None else (facts & fs)
-        return {'fields': fields, 'facts': facts or set()}
+        numf = {f for f in names if all(f in s.fld and s.fld[f] in s.num for s in states if f in s.fld) and any(f in s.fld for s in states)}
+        return {'fields': fields, 'facts': facts or set(), 'num': numf}
 
     def class_invariant(self, cname):
         if cname in self.invariants:
@@ -1426,6 +1530,7 @@ class Analyser:
             ci, init = self.prog.resolve(cname, '__init__')
             res = self.call_method(st, cname, '__init__', [], {}, None, free_params=True) if init is not None else [(st, None)]
             inv = self.collect_inv([r[0] for r in res])
+            seen_before_fields = set(inv['fields'])
             writers = self.field_writers(cname) - {'__init__'}
             for rnd in range(6):
                 states = []
@@ -1458,6 +1563,18 @@ class Analyser:
                     else:
                         inv['fields'][f] = (iv, obj); changed = True
                 inv['facts'] = inv['facts'] & new['facts']
+                # float / int typed fields: typed in every state that has the field (a field first seen in this round starts from this round)
+                nn = set()
+                for f in inv['fields']:
+                    was = f in inv.get('num', set())
+                    now = f in new.get('num', set())
+                    if f in seen_before_fields:
+                        if was and (now or f not in new['fields']):
+                            nn.add(f)
+                    elif now:
+                        nn.add(f)
+                inv['num'] = nn
+                seen_before_fields |= set(new['fields'])
                 self.apply_axioms(cname, inv)
                 if not changed:
                     break
